@@ -1,4 +1,4 @@
-from ast import Attribute, Subscript, Load, NodeVisitor
+from ast import Attribute, Subscript, Load, NodeVisitor, Name
 
 from .compat import PY2
 from .scope import FuncScope, Flow, SourceScope, ClassScope, get_first_body_node_loc
@@ -124,7 +124,9 @@ class extract_visitor(NodeVisitor):
 
         body_start = self.make_flow('for', [cur])
         for nn, _idx in get_indexes_for_target(node.target, [], []):
-            name = nn  # type: ast.Name # type: ignore[assignment]
+            if not isinstance(nn, Name):
+                continue  # for self.x in ...: / for d[k] in ...:
+            name = nn  # type: ast.Name
             body_start.add_name(AssignedName(name.id, body_loc(node.body), np(name), node.iter))
         body = self.visit_in_flow(node.body, body_start)
         body_start.loop(body)
@@ -283,7 +285,9 @@ class extract_visitor(NodeVisitor):
             pp = p
             p = self.make_flow('comp', [p])
             for nn, _idx in get_indexes_for_target(g.target, [], []):
-                name = nn  # type: ast.Name # type: ignore[assignment]
+                if not isinstance(nn, Name):
+                    continue
+                name = nn  # type: ast.Name
                 name.flow = pp  # type: ignore[attr-defined]
                 p.add_name(AssignedName(name.id, np(node), np(name), g.iter))
 
@@ -321,7 +325,9 @@ class extract_visitor(NodeVisitor):
                 else:
                     loc = body_loc(node.body)
                 for nn, _idx in get_indexes_for_target(it.optional_vars, [], []):
-                    name = nn  # type: ast.Name # type: ignore[assignment]
+                    if not isinstance(nn, Name):
+                        continue  # with ... as self.x: / with ... as d[k]:
+                    name = nn  # type: ast.Name
                     self.flow.add_name(AssignedName(name.id, loc, np(name), node))
 
         self.generic_visit(node)
